@@ -288,12 +288,35 @@ def run_stoch(item, only_choices=None):
 
 
 def execute(scn):
+    mid = []
+
+    def on_call(rec, active_sessions, r):
+        # the totals are also read WHILE the simulation is under way (at every scheduler invocation): the ledger is a
+        # statement about every simulation, finished or not
+        sim = rec.interface._simulator
+        mid.append((sim.iteration, float(acnsim.total_energy_delivered(sim)), float(np.sum(acnsim.aggregate_power(sim))), float(sim.peak)))
+
     with S.owned_noise(S.cyclic(scn.get("noise") or [0.0])):
-        tr = S.run_sim(scn)
+        tr = S.run_sim(scn, on_call=on_call)
         if scn.get("rerun") and tr.error is None:
-            tr = S.run_sim(dict(scn, sched={"kind": "script", "prog": {"rule": "zeromax", "len": 1}}, k=1), reuse=tr.evs)
+            del mid[:]
+            tr = S.run_sim(dict(scn, sched={"kind": "script", "prog": {"rule": "zeromax", "len": 1}}, k=1), reuse=tr.evs, on_call=on_call)
     viol = []
     check(scn, tr, lambda sig, what, o=None, e=None: viol.append((sig, what, o, e)))
+    if tr.error is None and not viol:
+        dt = scn["period"] / 60.0
+        volt = tr.sim.network.voltages
+        for t, tot, sum_ap, peak in mid:
+            done = [p for p in tr.periods if p["t"] < t]
+            e_sessions = sum(done[-1]["energy"].values()) if done else 0.0
+            integ = sum(p["rate"][st] * volt[st] / 1000.0 for p in done for st in p["rate"]) * dt
+            agg_peak = max([0.0] + [sum(p["rate"].values()) for p in done])
+            if not close(tot, e_sessions, 1e-3) or not close(sum_ap * dt, integ, 1e-3) or not close(tot, integ, 1e-3):
+                viol.append(("midrun:total-vs-integral", "read at period %d of a running simulation: total_energy_delivered=%.12g, sessions hold %.12g, integral of recorded aggregate power=%.12g (analysis: %.12g)" % (t, tot, e_sessions, integ, sum_ap * dt), tot, integ))
+                break
+            if not close(peak, agg_peak, 1e-3):
+                viol.append(("midrun:peak", "read at period %d of a running simulation: peak=%s, max recorded aggregate current so far=%s" % (t, peak, agg_peak), peak, agg_peak))
+                break
     return tr, viol
 
 
